@@ -116,12 +116,17 @@ const (
 // ZZ_C05_refresh_step: one refresh against a registration that changed since issuance.
 func ZZ_C05_refresh_step() {
 	zz.SetOption("clock.fixed", 1) // C05 does not quantify over time
+	// quick: one free dimension at a time (sum of the dimensions), small bounds.
+	// thorough, plan 0: one free dimension with the large bounds (two scopes per list, dotted first scope,
+	// password origin); plan 1: every PAIR of dimensions free at once (pairwise product) with the small bounds.
 	b := getBounds()
-	// quick: one free dimension (sum); thorough: larger bounds and every PAIR of dimensions free (pairwise product)
 	f1 := zz.Choice("focus", nDims)
 	f2 := f1
-	if zz.Thorough() {
-		f2 = f1 + zz.Choice("focus2", nDims-f1) // f2 >= f1; equal = single dimension
+	if zz.Thorough() && zz.Choice("plan", 2) == 1 {
+		zz.Assume(f1 < nDims-1)
+		f2 = f1 + 1 + zz.Choice("focus2", nDims-1-f1)
+		b = bounds{L: 8, exclude: " ." + upper}
+		zz.Cover("plan:pairwise", true)
 	}
 	free := func(dim int) bool { return dim == f1 || dim == f2 }
 	si := zz.Choice("strategy", 3)
@@ -172,7 +177,12 @@ func ZZ_C05_refresh_step() {
 	zz.Assume(oerr == nil)
 	subject0 := orig.GetSession().GetSubject()
 
-	// ---- the registration and the configuration change
+	// ---- the registration and the configuration change: the store now returns a NEW client record
+	// (as a database would), the request stored with the refresh token keeps pointing at the old one
+	old := c1
+	cn := *old
+	c1 = &cn
+	wd.Store.Clients["c1"] = c1
 	cur := append([]string{}, granted...)
 	if free(dimClientScopes) {
 		cur = []string{firstScope("client.scope", b)}
